@@ -147,7 +147,7 @@ func checkC17(c *km.Ctx) {
 	r.NotDecided = []string{"browser URL resolution beyond the stated character rules", "behaviour of an opaque (parser-based) filter"}
 	r.Assume = []string{"http.Redirect emits the target it is given (after path cleaning)", "go/types + go/ssa model the source faithfully"}
 
-	r.Rule("R-C17-1", "every redirect target is an on-origin constant, has an on-origin constant prefix, is destination-filter output (directly or through a filter-only field), or is a tabled by-design off-origin redirect", 18)
+	r.Rule("R-C17-1", "every redirect target is an on-origin constant, has an on-origin constant prefix, is destination-filter output (directly or through a filter-only field), or is a tabled by-design off-origin redirect", 7)
 	r.Rule("R-C17-2", "the destination filter returns the client's value only when it starts with '/', not with '//', has no backslash before the first '?' (the part net/http.Redirect path-cleans) and no control character; otherwise the constant profile path", 1)
 	r.Rule("R-C17-3", "every store into pendingAuth2Request.loginDestination is destination-filter output", 1)
 
